@@ -2,6 +2,8 @@ package main
 
 import (
 	"context"
+	"io"
+	"log"
 	"net"
 	"net/http"
 	"time"
@@ -29,6 +31,7 @@ func newLoopback(m *larking.Mux, opts ...larking.ServerOption) (*loopback, error
 	if err != nil {
 		return nil, err
 	}
+	hs.ErrorLog = log.New(io.Discard, "", 0) // recovered handler panics are observed by the client side
 	go hs.Serve(lis)
 	conn, err := grpc.Dial(lis.Addr().String(), grpc.WithTransportCredentials(insecure.NewCredentials()))
 	if err != nil {
